@@ -122,12 +122,16 @@ def laws(j, rng, n):
         mag = 10 ** rng.uniform(-3, 3)
 
         def rnd():
-            T = gamma.real_T4([rng.uniform(-3, 3), rng.uniform(-1.5, 1.5), rng.uniform(-3, 3)],
-                              np.array([rng.gauss(0, 1) for _ in range(3)]) * mag)
+            if i % 3 == 0:      # the whole group: rotations of differential size (1e-9 .. 1e-2) as well
+                sm = 10 ** rng.uniform(-9, -2)
+                ang = [rng.uniform(-1, 1) * sm, rng.uniform(-1, 1) * sm, rng.uniform(-1, 1) * sm]
+            else:
+                ang = [rng.uniform(-3, 3), rng.uniform(-1.5, 1.5), rng.uniform(-3, 3)]
+            T = gamma.real_T4(ang, np.array([rng.gauss(0, 1) for _ in range(3)]) * mag)
             return T
         T1, T2 = rnd(), rnd()
         S = np.array([rng.gauss(0, 1) for _ in range(6)]) * np.r_[mag, mag, mag, 1, 1, 1]
-        band = "t=1e%d" % int(3 * math.floor(math.log10(mag) / 3))
+        band = "t=1e%d%s" % (int(3 * math.floor(math.log10(mag) / 3)), ";small-rotation" if i % 3 == 0 else "")
         sc = max(1.0, mag)
         checks = {
             "Ad(T1T2)=Ad(T1)Ad(T2)": (lambda: b.adjoint(T1 @ T2), lambda: b.adjoint(T1) @ b.adjoint(T2), 1e-9 * sc * sc),
